@@ -2478,11 +2478,12 @@ class XonshParser(Parser):
         return None
 
     def any_cmd(self) -> Any | None:
-        # any_cmd: cmd_name | WS | KEYWORD
+        # any_cmd: cmd_name | WS | KEYWORD | MACRO_PARAM
         return self.seq_alts(
             self.cmd_name,
             (self.token, "WS"),
             self.keyword,
+            (self.token, "MACRO_PARAM"),
         )
 
     def cmd_group(self) -> Any | None:
